@@ -321,6 +321,12 @@ func (c14) Eval(c *Case) (*Violation, bool) {
 			{"balance", "--color=false", "-v", "", main},
 			{"balance", "--color=false", "-m", "0", main},
 			{"balance", "--color=false", "-m", "9:9,.", main},
+			{"balance", "--color=false", "-m", "-1,.", main},
+			{"balance", "--color=false", "-m", "1:-1,.", main},
+			{"balance", "--color=false", "-m", "-2:-3", main},
+			{"balance", "--color=false", "--digits", "40", main},
+			{"portfolio", "weights", "-v", comOr(c.J, "CHF"), "-m", "-1,.", main},
+			{"portfolio", "weights", "-v", comOr(c.J, "CHF"), "-m", "1:-1,.", main},
 			{"balance", "--color=false", "--digits", "-1", main},
 			{"balance", "--color=false", "--account", "NoSuchAccount", main},
 			{"balance", "--color=false", "--from", "0001-01-01", main},
